@@ -126,13 +126,13 @@ func specGenuineER6(s *icmpDriver, p *packets.FrameParser, t uint8) bool {
 //@ requires[pre.past]       forall(k, 0, 256, s.sentProbes[k] <= now())
 //@ ensures[C09.xor]         (ret0 == nil) != (ret1 == nil)
 //@ ensures[C09.class]       ret1 != nil ==> chain(ret1, *common.ReceiveProbeNoPktError) || chain(ret1, *common.BadPacketError)
-//@ ensures[C01+C05+C11.sound.kind]  ret0 != nil ==> specIsTE4(parser) || specIsER4(parser) || specIsTE6(parser) || specIsER6(parser)
-//@ ensures[C01+C05+C11.sound.te4]   ret0 != nil && specIsTE4(parser) ==> specGenuineTE4(s, parser, ret0.TTL)
-//@ ensures[C01+C05+C11.sound.er4]   ret0 != nil && specIsER4(parser) ==> specGenuineER4(s, parser, ret0.TTL)
+//@ ensures[C01+C05+C11+C12.sound.kind]  ret0 != nil ==> specIsTE4(parser) || specIsER4(parser) || specIsTE6(parser) || specIsER6(parser)
+//@ ensures[C01+C05+C11+C12.sound.te4]   ret0 != nil && specIsTE4(parser) ==> specGenuineTE4(s, parser, ret0.TTL)
+//@ ensures[C01+C05+C11+C12.sound.er4]   ret0 != nil && specIsER4(parser) ==> specGenuineER4(s, parser, ret0.TTL)
 // (a quote cut right after the 4-byte ICMPv6 header decodes to identifier 0 / sequence 0: it can only name TTL 0, which no
 // run probes — both engines reject MinTTL < 1 before the first send, C19.*.valid — hence the hypothesis MinTTL >= 1)
-//@ ensures[C01+C05+C11.sound.te6]   ret0 != nil && specIsTE6(parser) && packets.SpecQ6Next(parser.ICMP6.Payload) != 0 && s.params.ParallelParams.MinTTL >= 1 ==> specGenuineTE6(s, parser, ret0.TTL)
-//@ ensures[C01+C05+C11.sound.er6]   ret0 != nil && specIsER6(parser) ==> specGenuineER6(s, parser, ret0.TTL)
+//@ ensures[C01+C05+C11+C12.sound.te6]   ret0 != nil && specIsTE6(parser) && packets.SpecQ6Next(parser.ICMP6.Payload) != 0 && s.params.ParallelParams.MinTTL >= 1 ==> specGenuineTE6(s, parser, ret0.TTL)
+//@ ensures[C01+C05+C11+C12.sound.er6]   ret0 != nil && specIsER6(parser) ==> specGenuineER6(s, parser, ret0.TTL)
 //@ ensures[C01.addr]        ret0 != nil ==> ret0.IP == specOuterSrc(parser)
 //@ ensures[C02.compl.te4]   forall(t, 0, 256, specGenuineTE4(s, parser, t) && specPlainTE4(parser) ==> ret0 != nil && int(ret0.TTL) == t)
 //@ ensures[C02.compl.te6]   forall(t, 0, 256, specGenuineTE6(s, parser, t) && specPlainTE6(parser) ==> ret0 != nil && int(ret0.TTL) == t)
